@@ -383,7 +383,9 @@ func (s *scen) block(dt time.Duration) (obs string, vs []ev.Violation) {
 			strictObs = "jail-soft|strict-whole-window-reading-not-met"
 		}
 		// ---- stake history
-		if pre[p].Jails == 0 {
+		// (decided from the harness' own jail record - emptied when the provider unfreezes out of a hard jail - not from
+		// the chain's Jails counter, which is state of the code under test)
+		if len(s.l.jails[p]) == 0 {
 			minHist := win[len(win)-1] // win holds the 8 epochs cur-rec .. cur-rec-7; the window of rec+8 epochs starts one epoch earlier
 			h, ok := s.prevEpochs(minHist, 2)
 			if !ok {
@@ -616,6 +618,14 @@ var variants = []variant{
 		opFilter: func(o opdef) bool {
 			return o.name != "unfreeze(p3)" && o.name != "complainA(p3,cu=50)" && o.name != "complainA(p0,cu=1)" && o.name != "service(p0,cu=10)" && o.name != "complainB(p0,cu=5)"
 		}},
+	// p0 went through two soft jails and the hard jail, waited a day and unfroze two epochs ago: its stake history restarts
+	// at the unfreeze, so complaints right after it is back in the pairing must not jail it
+	{name: "c19/unfrozen", rec: 1, p3: "frozen",
+		prefix: []string{"complainA(p0,cu=50)", "next-epoch", "complainPrevEpochA(p0,cu=50)", "next-epoch", "next-epoch", "next-epoch", "next-epoch",
+			"complainA(p0,cu=50)", "next-epoch", "block(+1d)", "unfreeze(p0)", "next-epoch", "next-epoch"},
+		opFilter: func(o opdef) bool {
+			return o.name != "unfreeze(p3)" && o.name != "complainA(p3,cu=50)" && o.name != "complainA(p0,cu=1)" && o.name != "service(p0,cu=10)" && o.name != "complainB(p0,cu=5)"
+		}},
 	// p0 serviced CU (and got a one-CU report) three epochs ago: serviced CU at the far end of the 8-epoch window, outside
 	// the 2-epoch complaints window, must still count against fresh complaints
 	{name: "c19/oldservice", rec: 1, p3: "frozen",
@@ -643,9 +653,9 @@ func init() {
 			depth    int
 			deadline time.Duration
 		}
-		plans := []plan{{"c19/frozen4th", 4, 120 * time.Second}, {"c19/late4th", 4, 120 * time.Second}, {"c19/twojails", 4, 120 * time.Second}, {"c19/oldservice", 4, 90 * time.Second}, {"c19/rec3", 5, 120 * time.Second}}
+		plans := []plan{{"c19/frozen4th", 4, 120 * time.Second}, {"c19/late4th", 4, 120 * time.Second}, {"c19/twojails", 4, 120 * time.Second}, {"c19/oldservice", 4, 90 * time.Second}, {"c19/unfrozen", 4, 90 * time.Second}, {"c19/rec3", 5, 120 * time.Second}}
 		if ev.Tier() == "thorough" {
-			plans = []plan{{"c19/frozen4th", 6, 5 * time.Minute}, {"c19/late4th", 5, 3 * time.Minute}, {"c19/twojails", 6, 3 * time.Minute}, {"c19/oldservice", 6, 3 * time.Minute}, {"c19/rec3", 7, 3 * time.Minute}}
+			plans = []plan{{"c19/frozen4th", 6, 5 * time.Minute}, {"c19/late4th", 5, 3 * time.Minute}, {"c19/twojails", 6, 3 * time.Minute}, {"c19/oldservice", 6, 3 * time.Minute}, {"c19/unfrozen", 6, 3 * time.Minute}, {"c19/rec3", 7, 3 * time.Minute}}
 		}
 		exhaustive := true
 		var bounds []string
